@@ -70,6 +70,16 @@ CHECKS = {
     text="TLC checks that an acknowledged ban is in force until an acknowledged unban, across restart and merge. Every edge of the one-key state graph plus simulated long sequences on two keys are executed on two real brokers: emitter/keyban/ requests with a real master key, uses through SUBSCRIBE/PUBLISH, restart = Service.Close + NewService on the same cluster directory, gossip = Gossip().Encode() into the other broker's OnGossip (which may or may not have looked the key up before). TLC validates that every use is refused iff the model says the key is banned on that broker.",
     note="Strictly increasing wall clock between ban operations. Restart is a clean stop (a SIGKILL variant is not built). Gossip is delivered by the harness as a full-state exchange.",
     ref="4.6, 5/C14"),
+ "C10": dict(
+    level="model_checking", technique="TLA+ spec WriteQueue.tla (multi-step writers + timer flush over the RWMutex) model-checked with TLC; TLC-simulated schedules forced onto the real listener.Conn through verif.At gates and validated by TLC; plus mutual-exclusion probes and really concurrent stress runs whose socket stream is validated by TLC (WriteQueue_Stress)",
+    text="TLC checks exhaustively (2 writers x 2-3 packets + timer) that the locking discipline of Conn.Write/Flush keeps framing, per-writer order, no loss, no duplication for every interleaving and limiter outcome. Simulated schedules are forced step by step onto a real listener.Conn (goroutines parked at gates inside Write/Flush, limiter outcome forced), and after every step the parked position and the bytes on the recording socket must be the model's. Because a forced schedule only exercises interleavings the model allows, each schedule ends with a mutual-exclusion probe (a thread that needs the queue lock must not pass while another holds the flush lock) and the check adds free-running concurrent runs at flush rates 1/60/1000 whose decoded stream must satisfy the stream predicates.",
+    note="Socket writes are atomic w.r.t. each other (net.TCPConn; the fake socket implements that). The broker fan-out above the connection and the websocket transport's own mutex are exercised sequentially in C17/C02; concurrent publishers through the whole broker are not part of this check.",
+    ref="4.7, 5/C10"),
+ "C17": dict(
+    level="model_checking", technique="TLA+ specs Sniffer.tla, WsTransport.tla, WriteQueue.tla (single writer) model-checked with TLC; every edge of their exported state graphs executed on the real adapters over scripted fake sockets; recorded reads/writes validated by TLC",
+    text="Exhaustive at small bounds: every chunking of a 5-6 byte position-tagged stream into source reads, caller buffers 1..3(4), 1-3 sniffing sessions of arbitrary peek depth; every fragmentation into <=3 WebSocket messages (text/binary, empty, control in between), both EOF styles, writes of 0..2 bytes; every sequence of 3 writes x limiter outcome x flush timing on the write queue. TLC checks the byte-stream invariant on the models and validates every recorded Read/Write of the real adapters.",
+    note="Sources return io.EOF separately from data. MatchHTTP/MatchAny themselves are not driven: the sniffing sessions model what any matcher can do to the reader (read some prefix).",
+    ref="4.7, 5/C17"),
 }
 
 NOT_YET = "check not built yet in this session (planned, see DESIGN.md section 5); not claimed until its machinery exists"
